@@ -14,6 +14,7 @@ import (
 
 	"olacheck/core"
 	"olacheck/rules"
+	"olacheck/selftest"
 )
 
 func main() {
@@ -27,6 +28,8 @@ func main() {
 	verbose := flag.Bool("v", false, "print every obligation")
 	manifest := flag.Bool("manifest", false, "print MANIFEST.json")
 	dump := flag.String("dump", "", "debug: dump an engine's tables (locks)")
+	mutant := flag.String("mutant", "", "self-test child mode: analyse one seeded edit and print the result as JSON")
+	selfOnly := flag.Bool("selftest", false, "run the sensitivity self-test for the given properties and print a summary")
 	flag.Parse()
 	if *manifest {
 		b, err := rules.ManifestJSON()
@@ -34,6 +37,17 @@ func main() {
 			fmt.Println(err)
 			os.Exit(2)
 		}
+		fmt.Println(string(b))
+		return
+	}
+	if *mutant != "" {
+		m := selftest.Find(*mutant)
+		if m == nil {
+			fmt.Println("{}")
+			os.Exit(2)
+		}
+		absRepo, _ := filepath.Abs(*repo)
+		b, _ := json.Marshal(selftest.RunOne(absRepo, *verif, m))
 		fmt.Println(string(b))
 		return
 	}
@@ -97,6 +111,31 @@ func main() {
 		}
 		opts.OnlyRule, opts.OnlyKey = r.Rule, r.Key
 		opts.WriteEvidence = false
+	}
+	if *tier == "thorough" || *selfOnly {
+		self, _ := os.Executable()
+		results := selftest.RunAll(self, absRepo, *verif, props, 6)
+		opts.Extra = map[string]map[string]any{}
+		for _, id := range props {
+			sum := selftest.Summarise(results, id)
+			opts.Extra[id] = sum
+			sv := sum["sensitivity"].(map[string]any)
+			fmt.Printf("self-test %s: %v of %v seeded edits detected (%v by the expected rule), %v not applicable; %v of %v benign edits silent\n", id,
+				sv["detected"], sv["mutants_applied"], sv["detected_by_expected"], sv["not_applicable"], sv["benign_edits_silent"], sv["benign_edits_applied"])
+			if *selfOnly {
+				for _, row := range sv["details"].([]map[string]any) {
+					if v, _ := row["verdict"].(string); !strings.HasPrefix(v, "detected by the expected") {
+						fmt.Printf("   %v: %v %v\n", row["mutant"], row["verdict"], row["reported"])
+					}
+				}
+				for _, fa := range sv["benign_edits_reported"].([]string) {
+					fmt.Printf("   benign edit reported: %s\n", fa)
+				}
+			}
+		}
+		if *selfOnly {
+			return
+		}
 	}
 	bad := rules.RunProperties(props, opts)
 	sort.Strings(bad)
